@@ -436,6 +436,9 @@ func rlValidateDriver(raw json.RawMessage) *Out {
 	if c.Opts.ZeroPrefixed {
 		out.Key += "|zeroPrefixed"
 	}
+	if c.Opts.ListRepeat != "" {
+		out.Key += "|listRepeat=" + c.Opts.ListRepeat
+	}
 	fam := rlFamily(d.Kind)
 	where := d.Card + ":" + d.Kind
 	msgs, _, text, err := rlCompile([]rlUnit{{Msg: "Subject", Decl: d}}, c.Opts)
